@@ -541,7 +541,10 @@ func (w *World) setup() error {
 		if !c.NoCallbacks {
 			el.OnPromote(func(ctx context.Context, tok string) {
 				term := int(in.np.Add(1))
-				w.tr.Emit(c.ID, "promote", KV{"tok": w.tr.Tok(tok), "term": term, "ctx_err": ctx.Err() != nil, "blocks": !c.PromoteReturn})
+				w.tr.Emit(c.ID, "promote", KV{"tok": w.tr.Tok(tok), "term": term, "ctx_err": ctx.Err() != nil, "blocks": !c.PromoteReturn && !c.PromotePanic})
+				if c.PromotePanic {
+					panic("OnPromote callback of the application panics")
+				}
 				if !c.PromoteReturn {
 					<-ctx.Done()
 					w.tr.Emit(c.ID, "ctx_done", KV{"term": term})
@@ -553,6 +556,14 @@ func (w *World) setup() error {
 			el.OnDemote(func() {
 				in.nd.Add(1)
 				w.tr.Emit(c.ID, "demote", nil)
+				if c.DemoteCallsStop && !w.closing {
+					// the application reacts to the demotion by shutting the election down, from inside the callback
+					w.tr.Emit(c.ID, "stop_call", KV{"variant": "stop", "del": false, "wait": false, "timeout": 0, "ctx": 0})
+					in.apiBusy.Add(1)
+					err := in.el.Stop()
+					in.apiBusy.Add(-1)
+					w.tr.Emit(c.ID, "stop_ret", KV{"variant": "stop", "ok": err == nil, "err": apiErr(err)})
+				}
 				if c.DemoteDurUs > 0 {
 					time.Sleep(us(c.DemoteDurUs))
 					w.tr.Emit(c.ID, "demote_done", nil)
